@@ -31,6 +31,11 @@ type MitigationParams struct {
 	// TransientEnd: once the feeds have gone static the stream ends with a transient cause and is re-opened;
 	// an event at or below the threshold already established then arrives
 	TransientEnd bool `json:"transient_end"`
+	// FailoverAtEnd (with TransientEnd): the re-opened stream comes back under another vbUUID (fail-over
+	// without rollback)
+	FailoverAtEnd bool `json:"failover_at_end"`
+	// RollbackAtEnd (with TransientEnd): the re-open is answered with a rollback to 1 (the consumer had reached 2)
+	RollbackAtEnd bool `json:"rollback_at_end"`
 }
 
 // persistence feeds of one copy (uA = the branch the stream was opened on, uB = another branch)
@@ -80,6 +85,9 @@ func init() {
 				{Scenario: "c07_gate", Params: mustJSON(MitigationParams{Replicas: 1, CloseAt: true}), Bound: b, Shards: 8},
 				{Scenario: "c07_gate", Params: mustJSON(MitigationParams{Replicas: 1, EpochAssign: true}), Bound: b - 1, Shards: 8, Note: "a cluster map with a higher epoch but a lower revision id assigns the replica: it counts from then on"},
 				{Scenario: "c07_gate", Params: mustJSON(MitigationParams{Replicas: 1, TransientEnd: true}), Bound: b - 1, Shards: 8, Note: "transient end and re-open once the feeds are static: the established threshold still applies"},
+				{Scenario: "c07_gate", Params: mustJSON(MitigationParams{Replicas: 1, TransientEnd: true, FailoverAtEnd: true}), Bound: b - 1, Shards: 8, Note: "the re-opened stream comes back under another vbUUID: the threshold established so far still applies"},
+				{Scenario: "c07_gate", Params: mustJSON(MitigationParams{Replicas: 1, TransientEnd: true, RollbackAtEnd: true}), Bound: b - 1, Shards: 8, Note: "the re-open is answered with a rollback: what the copies reported before it still counts (they may never report again)"},
+				{Scenario: "c07_rebalance", Params: mustJSON(struct{}{}), Bound: 0, Note: "the session after a real Rebalance() with a slow re-open and copies that keep reporting the same figures"},
 				{Scenario: "c07_gate", Params: mustJSON(MitigationParams{Replicas: 1, Stall: true}), Bound: 0, Shards: 8, Note: "the DCP thread stalls for two observe intervals at every scheduling point (lost wake-up between the gate's check and its wait)"},
 			}
 			if tier == "thorough" {
@@ -369,6 +377,12 @@ func gateMain(p MitigationParams) {
 		}
 		if p.TransientEnd && tick == 4 {
 			// the feeds are static by now: whatever threshold was reached stays what the copies report
+			if p.RollbackAtEnd {
+				c.Vb[0].Opens = []gocbcore.SimOpen{{Kind: "rollback", Rollback: 1, SwapLog: []gocbcore.SimPacket{marker(1, 3), symbolPacket("M", 1), symbolPacket("M", 2)}}}
+			}
+			if p.FailoverAtEnd {
+				c.Vb[0].Failover = append([]gocbcore.FailoverEntry{{VbUUID: uB, SeqNo: 2}}, c.Vb[0].Failover...)
+			}
 			c.EndStream(0, gocbcore.ErrSocketClosed)
 			vrt.Sleep(2 * time.Second)
 			// the third event of the snapshot arrives only now; if the threshold established before the end
@@ -435,10 +449,80 @@ func gateMain(p MitigationParams) {
 			}
 		}
 	}
+	if p.RollbackAtEnd && fall && !ffirst && fm >= 3 && !delivered[3] {
+		vrt.Failf("%s: the re-open was answered with a rollback to 1 (the consumer had reached 2); event 3 lies above that position, every copy reports it persisted, and it was never shown", desc)
+	}
 	if fall && !ffirst && uint64(lastThreshold) < fm {
 		vrt.Failf("%s: every copy's final report is >= %d under one vbUUID (and has been repeated for several rounds) but the stream's threshold is still %d", desc, fm, lastThreshold)
 	}
 	e.Stream.Close(false)
 	vrt.SetOutcome(fmt.Sprintf("%s|thr=%d|best=%d|delivered=%d", desc, lastThreshold, maxQualified, len(e.Cons.Events)))
 	_ = time.Second
+}
+
+// c07_rebalance: "once the threshold covers a waiting event that event is delivered (no lost wake-up)" in the
+// session that follows a real Rebalance(): the copies have persisted everything long ago and keep reporting
+// the same figures (the library dispatches a figure only when it changes), the re-open is slow (one stream
+// request takes 2 s, so the first persistence reports of the new session arrive while Open() is still
+// running); an event that arrives after the rebalance is covered and must be delivered.
+func init() {
+	scenarios["c07_rebalance"] = func(raw json.RawMessage) *vrt.Scenario {
+		return &vrt.Scenario{Name: "c07_rebalance", FreeChoices: true, NoTimerAlt: true, MaxSteps: 2_000_000, Main: func() {
+			resetGlobals()
+			slow := vrt.Choose(3, true, "slow-stream-request") // 0: none, 1: vb0, 2: vb1
+			o := EnvOpts{Vbs: 2, Nodes: 2, Replicas: 1, CheckpointType: "manual", Mitigation: true, WrapMeta: true, RebalanceDelay: time.Second}
+			c := NewCluster(&o)
+			for vb := uint16(0); vb < 2; vb++ {
+				u := c.Vb[vb].Failover[0].VbUUID
+				for cp := 0; cp <= 1; cp++ {
+					c.SetPersist(vb, cp, gocbcore.SimPersist{VbUUID: u, Persist: 3, Current: 3})
+				}
+				c.Append(vb, marker(1, 3), symbolPacket("M", 1), symbolPacket("M", 2))
+			}
+			e := NewEnv(c, o)
+			e.Cons.AutoAck = true
+			e.Stream.Open()
+			interval := e.Cfg.RollbackMitigation.Interval
+			vrt.Sleep(4 * interval)
+			vrt.Quiesce()
+			if len(e.Cons.Events) != 4 {
+				vrt.Failf("harness: %d of 4 events delivered before the rebalance", len(e.Cons.Events))
+				return
+			}
+			e.Stream.Save()
+			armed := slow != 0
+			c.Fault = func(r *gocbcore.SimRequest) gocbcore.SimAnswer {
+				if armed && r.Kind == "openstream" && int(r.Vb) == slow-1 {
+					armed = false
+					return gocbcore.SimAnswer{Kind: "delay", Delay: 2 * time.Second}
+				}
+				return gocbcore.SimAnswer{}
+			}
+			e.Stream.Rebalance()
+			vrt.Sleep(o.RebalanceDelay + 6*time.Second)
+			vrt.Quiesce()
+			for vb := uint16(0); vb < 2; vb++ {
+				if !c.StreamOpen(vb) {
+					vrt.Failf("slow=%d: vb%d is not streamed after the rebalance", slow, vb)
+					return
+				}
+				c.Append(vb, symbolPacket("M", 3))
+			}
+			vrt.Sleep(6 * interval)
+			vrt.Quiesce()
+			for vb := uint16(0); vb < 2; vb++ {
+				got := false
+				for _, d := range e.Cons.Events {
+					if d.Vb == vb && d.Seq == 3 {
+						got = true
+					}
+				}
+				if !got {
+					vrt.Failf("after a rebalance (slow stream request: %v): every copy of vb%d has been reporting persisted seqno 3 all along, event 3 arrived and was never delivered (lost wake-up: the new session never learnt the threshold)", []string{"none", "vb0", "vb1"}[slow], vb)
+				}
+			}
+			vrt.SetOutcome(fmt.Sprintf("slow=%d", slow))
+			e.Stream.Close(false)
+		}}
+	}
 }
